@@ -322,7 +322,7 @@ impl Enc {
                 Step::MadeOptional(f) => match position.iter().find(|(n, _, _)| n == f) {
                     Some((_, c, p)) => {
                         if *c == 0 {
-                            if *p > 127 {
+                            if *p > 128 {
                                 return Err(EncErr::Unrepresentable(format!(
                                     "made-optional position {p} of {f} does not fit the position byte"
                                 )));
